@@ -76,6 +76,26 @@ const (
 // named non-rune int32
 type NamedI32 int32
 
+// NilSafeStr / NilSafeErr are pointer types whose text methods work on a nil receiver: a typed nil pointer of
+// such a type is a perfectly good item (its text is the method's result, not "").
+type NilSafeStr struct{ s string }
+
+func (p *NilSafeStr) String() string {
+	if p == nil {
+		return "n/a"
+	}
+	return p.s
+}
+
+type NilSafeErr struct{ s string }
+
+func (p *NilSafeErr) Error() string {
+	if p == nil {
+		return "no error (nil)"
+	}
+	return p.s
+}
+
 // FielderT implements tabular's (unused) Fielder interface and nothing else.
 type FielderT struct{ A, B string }
 
@@ -230,6 +250,11 @@ func Materialise(it Item) *Live {
 		}
 	case "fmtr":
 		l.V = Fmtr(uint32(it.N))
+	case "nilstr":
+		l.V = (*NilSafeStr)(nil)
+	case "nilerr":
+		var e error = (*NilSafeErr)(nil)
+		l.V = e
 	case "fielder":
 		l.V = FielderT{string(it.S), "b"}
 	case "anonfielder":
@@ -307,6 +332,10 @@ func TextForm(it Item, live *Live) string {
 		return fmt.Sprintf("%v", live.V)
 	case "sns", "stderr":
 		return string(it.S)
+	case "nilstr":
+		return "n/a"
+	case "nilerr":
+		return "no error (nil)"
 	}
 	return fmt.Sprintf("%v", live.V)
 }
@@ -379,6 +408,9 @@ func Mutate(l *Live, it Item, to Item) bool {
 	switch it.K {
 	case "if", "ifp":
 		l.St.S, l.St.G, l.St.E = string(to.S), string(to.G), string(to.E)
+		if to.M != 0 { // M != 0 marks "the declared sizes change too"
+			l.St.H, l.St.W = to.H, to.W
+		}
 		return true
 	case "psx":
 		l.PSX.A, l.PSX.B = int(to.N), string(to.S)
